@@ -114,6 +114,13 @@ def build():
                      ensures=[('flags-mirror-the-criteria', lambda c: rule_inv(c.new, c.p.self))],
                      modifies=lambda c: {f'attr:is_{f}_available': [c.p.self] for f in FLAGS}))
 
+    # the dataclass hook that runs after every construction of a rule: it establishes the flags and leaves the configured criteria exactly as written in the rule file
+    reg.add(Contract(EP, 'EntryPointRule.__post_init__', dict(self=RULE), returns=NoneT,
+                     requires=[('fields-have-the-declared-types', lambda c: z3.And(*[S.has_type(c.old.attr(c.p.self, f), t) for f, t in RULE_FIELDS.items()]))],
+                     ensures=[('flags-mirror-the-criteria', lambda c: rule_inv(c.new, c.p.self)),
+                              ('the-criteria-are-the-configured-ones', lambda c: z3.And(*[c.new.attr(c.p.self, f) == c.old.attr(c.p.self, f) for f in RULE_FIELDS]))],
+                     modifies=lambda c: {f'attr:is_{f}_available': [c.p.self] for f in FLAGS}))
+
     # ---- filter_rule_by_unit_info ---------------------------------------------------------------------------------------
     def rules_seq(c, h=None):
         h = h or c.pre
@@ -662,6 +669,7 @@ QUICK_CANARIES = {
     'P3GlobalSemanticAnalysis.run': ['delete-stmt[self.loader.save_global_sfg_by_entry_point', 'delete-stmt[frame_stack = self.init_frame_stack'],
     'EntryPointGenerator._load_settings': ['negate-condition', 'delete-stmt[continue]'],
     'EntryPointRule.check_availablility': ['delete-stmt[self.is_lang_available'],
+    'EntryPointRule.__post_init__': ['delete-stmt[self.check_availablility()]'],
 }
 MIN_CANARY_KILL_RATIO = 0.9
 EQUIVALENT_MUTANTS = ('delete-stmt[return True] @L18', 'delete-stmt[return True] @L29')   # `not None` is True as well
